@@ -1,4 +1,5 @@
 \* plan enumeration (no VIEW: hist distinguishes states): every history of depth 3, two targets, <=1 fault, <=1 restart, <=1 probe
+\* switches = the code at /repo HEAD (only LateRegisterChecked and IntPauseAtomic as found)
 SPECIFICATION Spec
 CHECK_DEADLOCK FALSE
 INVARIANTS PlanOut
@@ -12,11 +13,15 @@ CONSTANTS
   MaxHolds = 0
   MaxNoops = 1
   WithSettle = FALSE
-  PauseAtomic = FALSE
-  StartRollback = FALSE
-  EntityGC = FALSE
-  PollerExits = FALSE
+  MaxErrs = 1
+  FaultsAt = "any"
+  PauseAtomic = TRUE
+  StartRollback = TRUE
+  EntityGC = TRUE
+  PollerExits = TRUE
   SharedKept = TRUE
-  JoinedStopped = FALSE
+  JoinedStopped = TRUE
   LateRegisterChecked = FALSE
   BarrierExits = TRUE
+  IntPauseAtomic = FALSE
+  GaugeDeleteFirst = TRUE
